@@ -236,6 +236,12 @@ def rule_marker_parent(ctx: Ctx, prog: Program) -> None:
                     tgt, args = kw.get("target"), kw.get("args")
                     idx = p.spawn.index
                     solver_elem = View("self.solvers", (idx,))
+                    # a wrapper  def w(a, f, *rest): ... f(*rest) ...  handed to Process runs f(rest): judge what it forwards
+                    fwd = _unwrap_forwarder(tgt, args)
+                    if fwd == "opaque":
+                        raise AnalysisError(f"R-MARKER: {name}: the worker target {tgt!r} is a wrapper function whose forwarding of the entry point and its arguments is not read")
+                    if fwd is not None:
+                        tgt, args = fwd
                     okk = False
                     why = ""
                     q_ok = lambda v: isinstance(as_view(v), View) and it.allocs.get(as_view(v).root, ("",))[0] == "call" and str(it.allocs[as_view(v).root][1]).endswith("Queue")
@@ -247,6 +253,33 @@ def rule_marker_parent(ctx: Ctx, prog: Program) -> None:
                             and as_view(args.items[0]) == View("variable_idx", ()) and it.scalar(bp.state, args.items[1]) == idx and q_ok(args.items[2])
                     _mv(ctx, fn, name, okk, "one process per solver: target = that solver's queueing entry point, args = (.., its index, the result queue)", "spawn-args",
                         f"{name}: Process(target={tgt!r}, args={args!r}) does not start solver i with its own index i and the shared result queue")
+
+
+def _unwrap_forwarder(tgt: Any, args: Any) -> Any:
+    """Process(target=w, args=(..)) where w is a plain function of the package that calls one of its parameters with the remaining ones:
+    the (callee, arguments) it runs; None when the target is not a plain function; "opaque" when it is one that this does not read."""
+    if not isinstance(tgt, FuncVal) or not isinstance(args, Tup):
+        return None
+    node = tgt.fn.node
+    params = [a.arg for a in node.args.posonlyargs + node.args.args]
+    var = node.args.vararg.arg if node.args.vararg else None
+    calls = [c for c in ast.walk(node) if isinstance(c, ast.Call) and isinstance(c.func, ast.Name) and c.func.id in params]
+    if len(calls) != 1:
+        return "opaque"
+    c = calls[0]
+    j = params.index(c.func.id)
+    items = list(args.items)
+    if j >= len(items) or c.keywords:
+        return "opaque"
+    fwd: List[Any] = []
+    for a in c.args:
+        if isinstance(a, ast.Starred) and isinstance(a.value, ast.Name) and a.value.id == var:
+            fwd.extend(items[len(params):])
+        elif isinstance(a, ast.Name) and a.id in params and params.index(a.id) < len(items):
+            fwd.append(items[params.index(a.id)])
+        else:
+            return "opaque"
+    return items[j], Tup(tuple(fwd))
 
 
 def _last_line(r: PathResult) -> int:
@@ -522,6 +555,33 @@ def rule_liveness(ctx: Ctx, prog: Program) -> None:
                               "once the remaining workers are dead the call never returns")
         if not gets:
             ctx.violation("R-LIVENESS", fn.path, name, "no-get", fn.loc(), f"{name}: no read of the result queue found")
+        # (ii-b) no unbounded wait on a synchronisation object that is handed to the workers (only a living worker releases it)
+        shared_roots = set()
+        for e in procs:
+            kw = dict(e.kwargs)
+            a_ = kw.get("args")
+            for v in (list(a_.items) if isinstance(a_, Tup) else []) + [kw.get("kwargs")]:
+                av = as_view(v) if v is not None else None
+                if isinstance(av, View):
+                    shared_roots.add(av.root)
+        seen_w = set()
+        for e in all_events:
+            if e.kind == "mcall" and e.name in ("acquire", "wait") and id(e.node) not in seen_w:
+                seen_w.add(id(e.node))
+                rv = as_view(e.recv)
+                if not (isinstance(rv, View) and rv.root in shared_roots):
+                    continue
+                kw = dict(e.kwargs)
+                tmo = kw.get("timeout", e.args[1] if (e.name == "acquire" and len(e.args) >= 2) else (e.args[0] if (e.name == "wait" and e.args) else None))
+                tmo_none = tmo is not None and _is_none(tmo if not isinstance(tmo, (View, Dual)) else it.scalar(State(), tmo))
+                nonblock = (("block" in kw) and it.scalar(State(), kw["block"]) == ZERO) or (("blocking" in kw) and it.scalar(State(), kw["blocking"]) == ZERO) \
+                    or (e.name == "acquire" and len(e.args) >= 1 and it.scalar(State(), e.args[0]) == ZERO)
+                if (tmo is not None and not tmo_none) or nonblock:
+                    ctx.ok("R-LIVENESS", f"{name}: the wait on a synchronisation object shared with the workers is bounded in time")
+                else:
+                    ctx.violation("R-LIVENESS", fn.path, name, f"blocking-{e.name}", f"{fn.path}:{e.line}",
+                                  f"{name}: {e.name}() on an object that is handed to the worker processes blocks without a timeout: only a living worker "
+                                  "releases it, so once the workers that hold it are dead the call never returns (and never reaches the liveness test)")
         # (v) the answer of the liveness query is not tested by truthiness when it can be the index 0
         helper_fns = [fn]
         for node in ast.walk(fn.node):
